@@ -29,15 +29,87 @@ class Unsupported(Exception):
     pass
 
 
+class Normalise(ast.NodeTransformer):
+    """spellings of one construct are brought to one form before translation, so that a behaviour-preserving edit of the
+    source gives the same Lean text: `not a in b` / `a not in b`, `not a is b` / `a is not b`, an `if` with an `else` whose
+    condition is negated (branches swapped), `if x is not None: A else: B` (→ `if x is None: B else: A`), `x.pop()` as a
+    statement (→ `x = x[:-1]`), a tuple of strings iterated over / a list of them"""
+
+    def visit_UnaryOp(self, node):
+        self.generic_visit(node)
+        if isinstance(node.op, ast.Not) and isinstance(node.operand, ast.Compare) and len(node.operand.ops) == 1:
+            op = node.operand.ops[0]
+            flip = {ast.In: ast.NotIn, ast.NotIn: ast.In, ast.Is: ast.IsNot, ast.IsNot: ast.Is}
+            if type(op) in flip:
+                return ast.copy_location(ast.Compare(left=node.operand.left, ops=[flip[type(op)]()],
+                                                     comparators=node.operand.comparators), node)
+        return node
+
+    def visit_If(self, node):
+        self.generic_visit(node)
+        if node.orelse and not (len(node.orelse) == 1 and isinstance(node.orelse[0], ast.If)):
+            t = node.test
+            if isinstance(t, ast.UnaryOp) and isinstance(t.op, ast.Not):
+                node.test, node.body, node.orelse = t.operand, node.orelse, node.body
+            elif isinstance(t, ast.Compare) and len(t.ops) == 1 and isinstance(t.ops[0], ast.IsNot) \
+                    and isinstance(t.comparators[0], ast.Constant) and t.comparators[0].value is None:
+                node.test = ast.copy_location(ast.Compare(left=t.left, ops=[ast.Is()], comparators=t.comparators), t)
+                node.body, node.orelse = node.orelse, node.body
+            elif isinstance(t, ast.Compare) and len(t.ops) == 1 and isinstance(t.ops[0], (ast.NotEq, ast.NotIn)):
+                flip = {ast.NotEq: ast.Eq, ast.NotIn: ast.In}
+                node.test = ast.copy_location(ast.Compare(left=t.left, ops=[flip[type(t.ops[0])]()], comparators=t.comparators), t)
+                node.body, node.orelse = node.orelse, node.body
+        return node
+
+    def visit_Expr(self, node):
+        self.generic_visit(node)
+        v = node.value
+        if isinstance(v, ast.Call) and isinstance(v.func, ast.Attribute) and v.func.attr == 'pop' and not v.args \
+                and isinstance(v.func.value, ast.Name):
+            x = v.func.value.id
+            return ast.copy_location(ast.parse('%s = %s[:-1]' % (x, x)).body[0], node)
+        return node
+
+
 def find_func(tree, cls, name):
     for node in tree.body:
         if cls is None and isinstance(node, ast.FunctionDef) and node.name == name:
-            return node
+            return ast.fix_missing_locations(Normalise().visit(copy.deepcopy(node)))
         if isinstance(node, ast.ClassDef) and node.name == cls:
             for sub in node.body:
                 if isinstance(sub, ast.FunctionDef) and sub.name == name:
-                    return sub
+                    return ast.fix_missing_locations(Normalise().visit(copy.deepcopy(sub)))
     return None
+
+
+def pat_match(pat, node, binds):
+    """structural match of an expression against a pattern in which the names `_0`, `_1`, … stand for any expression"""
+    if isinstance(pat, ast.Name) and pat.id.startswith('_') and pat.id[1:].isdigit():
+        if pat.id in binds:
+            return ast.dump(binds[pat.id]) == ast.dump(node)
+        binds[pat.id] = node
+        return True
+    if type(pat) is not type(node):
+        return False
+    for f in pat._fields:
+        a, b = getattr(pat, f, None), getattr(node, f, None)
+        if f == 'ctx':
+            continue
+        if isinstance(a, list):
+            if not isinstance(b, list) or len(a) != len(b):
+                return False
+            for x, y in zip(a, b):
+                if isinstance(x, ast.AST):
+                    if not pat_match(x, y, binds):
+                        return False
+                elif x != y:
+                    return False
+        elif isinstance(a, ast.AST):
+            if not isinstance(b, ast.AST) or not pat_match(a, b, binds):
+                return False
+        elif a != b:
+            return False
+    return True
 
 
 class Tr:
@@ -61,9 +133,58 @@ class Tr:
     def src(self, node):
         return ast.unparse(node)
 
+    def expand(self, n):
+        """names that merely abbreviate an attribute chain of `self` / `other` (`meta_ext = self.meta_ext`) are replaced by it"""
+        al = getattr(self, 'aliases', None)
+        if not al:
+            return n
+
+        class Sub(ast.NodeTransformer):
+            def visit_Name(self_, node):
+                return copy.deepcopy(al[node.id]) if node.id in al and isinstance(node.ctx, ast.Load) else node
+        return ast.fix_missing_locations(Sub().visit(copy.deepcopy(n)))
+
+    def mapped(self, n):
+        """a mapped attribute read / call: by its source text, or by a pattern with placeholders `_0`, `_1`"""
+        if isinstance(n, (ast.Constant, ast.Name)):
+            return None
+        s = self.src(n)
+        if getattr(self, '_norm_for', None) != (len(self.attrs), len(self.calls)):
+            # the keys are written as they appear in the source; compare them in normalised spelling
+            def norm(k):
+                try:
+                    return ast.unparse(Normalise().visit(ast.parse(k, mode='eval').body))
+                except SyntaxError:
+                    return k
+            for table in (self.attrs, self.calls):
+                for k in list(table):
+                    table.setdefault(norm(k), table[k])
+            self._norm_for = (len(self.attrs), len(self.calls))
+        if s in self.attrs:
+            return self.attrs[s]
+        if s in self.calls:
+            return '(← %s)' % self.calls[s]
+        for table, monadic in ((self.attrs, False), (self.calls, True)):
+            for key, val in table.items():
+                if '_0' not in key:
+                    continue
+                try:
+                    pat = Normalise().visit(ast.parse(key, mode='eval').body)
+                except SyntaxError:
+                    continue
+                binds = {}
+                if pat_match(pat, n, binds):
+                    out = val
+                    for name, sub in binds.items():
+                        out = out.replace('{%s}' % name[1:], self.atom(sub))
+                    return '(← %s)' % out if monadic else out
+        return None
+
     def e(self, n):
-        if not isinstance(n, (ast.Constant, ast.Name)) and self.src(n) in self.attrs:
-            return self.attrs[self.src(n)]
+        n = self.expand(n)
+        m_ = self.mapped(n)
+        if m_ is not None:
+            return m_
         if isinstance(n, ast.Constant):
             if isinstance(n.value, bool):
                 return 'true' if n.value else 'false'
@@ -76,10 +197,6 @@ class Tr:
             return n.id
         if isinstance(n, ast.Attribute) or isinstance(n, ast.Call):
             s = self.src(n)
-            if s in self.attrs:
-                return self.attrs[s]
-            if s in self.calls:
-                return '(← %s)' % self.calls[s]
             if isinstance(n, ast.Call) and isinstance(n.func, ast.Name) and n.func.id == 'len' and len(n.args) == 1:
                 return '(%s).length' % self.e(n.args[0])
             if isinstance(n, ast.Call) and isinstance(n.func, ast.Name) and n.func.id == 'slice':
@@ -189,8 +306,10 @@ class Tr:
 
     def b(self, n):
         """Boolean expression (Lean Bool)"""
-        if not isinstance(n, (ast.Constant, ast.Name)) and self.src(n) in self.attrs:
-            return self.attrs[self.src(n)]
+        n = self.expand(n)
+        m_ = self.mapped(n)
+        if m_ is not None:
+            return m_
         if isinstance(n, ast.UnaryOp) and isinstance(n.op, ast.Not):
             return '(!%s)' % self.b(n.operand)
         if isinstance(n, ast.BoolOp):
@@ -208,6 +327,12 @@ class Tr:
                 return '(← (if %s then %s else pure false))' % (parts[0], act)
             op = ' && ' if isinstance(n.op, ast.And) else ' || '
             return '(' + op.join(parts) + ')'
+        if isinstance(n, ast.Compare) and len(n.ops) == 1 and isinstance(n.ops[0], (ast.NotIn, ast.IsNot, ast.NotEq)):
+            flip = {ast.NotIn: ast.In, ast.IsNot: ast.Is, ast.NotEq: ast.Eq}
+            pos = ast.Compare(left=n.left, ops=[flip[type(n.ops[0])]()], comparators=n.comparators)
+            m_ = self.mapped(pos)
+            if m_ is not None:
+                return '(!%s)' % m_
         if isinstance(n, ast.Compare):
             parts = []
             left = n.left
@@ -274,6 +399,11 @@ class Tr:
         while i < len(stmts):
             s = stmts[i]
             nxt = stmts[i + 1] if i + 1 < len(stmts) else None
+            if isinstance(s, (ast.If, ast.For)):
+                later = set()
+                for t_ in stmts[i + 1:]:
+                    later |= {n_.id for n_ in ast.walk(t_) if isinstance(n_, ast.Name) and isinstance(n_.ctx, ast.Load)}
+                self.used_later = later | getattr(self, 'outer_later', set())
             # idiom: X = <optional>; if X is None: return R
             if (isinstance(s, ast.Assign) and len(s.targets) == 1 and isinstance(s.targets[0], ast.Name)
                     and self.src(s.value) in self.optional and isinstance(nxt, ast.If)
@@ -336,14 +466,20 @@ class Tr:
         default is never read: every branch must assign the name (checked), as Python needs for the later uses"""
         out = []
         hoist = getattr(self, 'hoist', {})
-        if not hoist or not isinstance(s, ast.If):
+        if not isinstance(s, ast.If):
             return out
         some = self.maybe_assigned(s.body) | self.maybe_assigned(s.orelse)
+        both = (self.assigned_names(s.body) & self.assigned_names(s.orelse)) if s.orelse else set()
         for x in sorted(some):
             if x in hoist and not self.is_declared(x):
-                if not s.orelse or x not in (self.assigned_names(s.body) & self.assigned_names(s.orelse)):
+                if not s.orelse or x not in both:
                     raise Unsupported('name %s is not assigned on every path' % x)
                 out.append('%slet mut %s := %s' % (ind, x, hoist[x]))
+                self.declared[-1].add(x)
+                self.hoisted_names = getattr(self, 'hoisted_names', set()) | {x}
+            elif x in both and not self.is_declared(x) and x in getattr(self, 'used_later', set()):
+                # first assigned in both branches and read afterwards: declared before the `if` (the value is never read)
+                out.append('%slet mut %s := default' % (ind, x))
                 self.declared[-1].add(x)
                 self.hoisted_names = getattr(self, 'hoisted_names', set()) | {x}
         return out
@@ -355,6 +491,17 @@ class Tr:
     def stmt0(self, s, ind):
         if isinstance(s, ast.Expr) and isinstance(s.value, ast.Constant) and isinstance(s.value.value, str):
             return []                           # docstring
+        if isinstance(s, ast.If) and not s.orelse and isinstance(s.test, ast.BoolOp) and isinstance(s.test.op, ast.And) \
+                and len(s.test.values) >= 2:
+            first = s.test.values[0]
+            if isinstance(first, ast.Compare) and len(first.ops) == 1 and isinstance(first.ops[0], ast.IsNot) \
+                    and isinstance(first.left, ast.Name) and first.left.id in (self.opt_locals | self.opt_params) \
+                    and isinstance(first.comparators[0], ast.Constant) and first.comparators[0].value is None:
+                # `if x is not None and B:` is `if x is not None: if B:` (Python evaluates B only then)
+                rest = s.test.values[1] if len(s.test.values) == 2 else ast.BoolOp(op=ast.And(), values=s.test.values[1:])
+                inner = ast.If(test=rest, body=s.body, orelse=[])
+                outer = ast.If(test=first, body=[inner], orelse=[])
+                return self.stmt0(ast.fix_missing_locations(ast.copy_location(outer, s)), ind)
         for head, lines in getattr(self, 'stmt_map', {}).items():
             if self.src(s).startswith(head):
                 self.declared[-1].update(getattr(self, 'stmt_map_declares', {}).get(head, ()))
@@ -378,6 +525,19 @@ class Tr:
             x = t.id
             if x in self.skip_assign:
                 return []
+            v_ = s.value
+            if (isinstance(v_, ast.BinOp) and isinstance(v_.op, ast.Mod) and isinstance(v_.left, ast.Constant)
+                    and isinstance(v_.left.value, str)) or isinstance(v_, ast.JoinedStr) \
+                    or (isinstance(v_, ast.Constant) and isinstance(v_.value, str) and x in ('msg', 'message', 'err_msg')):
+                return []                  # the text of an error message: exceptions are modelled by their type only
+            if isinstance(v_, ast.Attribute) and not self.is_declared(x) and x not in self.mutable and self.mapped(v_) is None:
+                root = v_
+                while isinstance(root, ast.Attribute):
+                    root = root.value
+                if isinstance(root, ast.Name) and root.id in ('self', 'other'):
+                    self.aliases = dict(getattr(self, 'aliases', {}))
+                    self.aliases[x] = v_
+                    return []
             if self.is_declared(x):
                 return ['%s%s := %s' % (ind, x, self.e(s.value))]
             self.declared[-1].add(x)
@@ -425,11 +585,11 @@ class Tr:
                 and s.test.comparators[0].value is None and len(s.body) == 1 and isinstance(s.body[0], ast.Return):
             x = s.test.left.id
             return ['%slet some %s := %s | return %s' % (ind, x, x, self.ret(s.body[0].value))]
-        if isinstance(s, ast.If) and not s.orelse and isinstance(s.test, ast.UnaryOp) and isinstance(s.test.op, ast.Not) \
-                and isinstance(s.test.operand, ast.Compare) and len(s.test.operand.ops) == 1 \
-                and isinstance(s.test.operand.ops[0], ast.Is) and isinstance(s.test.operand.left, ast.Name) \
-                and s.test.operand.left.id in self.opt_params:
-            x = s.test.operand.left.id
+        if isinstance(s, ast.If) and not s.orelse and isinstance(s.test, ast.Compare) and len(s.test.ops) == 1 \
+                and isinstance(s.test.ops[0], ast.IsNot) and isinstance(s.test.left, ast.Name) \
+                and s.test.left.id in self.opt_params and isinstance(s.test.comparators[0], ast.Constant) \
+                and s.test.comparators[0].value is None:
+            x = s.test.left.id
             return ['%sif let some %s := %s then' % (ind, x, x)] + self.block(s.body, ind + '  ')
         if isinstance(s, ast.Continue):
             return ['%scontinue' % ind]
@@ -498,7 +658,7 @@ class Tr:
                 raise Unsupported('monadic call inside a search loop condition')
             if self.is_declared(v) and v in self.opt_locals:
                 out_ = ['%s%s := (%s).find? (fun %s => %s)' % (ind, v, self.e(s.iter), x, cond)]
-                if x in getattr(self, 'leak_vars', ()):
+                if x in getattr(self, 'leak_vars', ()) or x in getattr(self, 'used_later', ()):
                     # the loop variable is read after the loop: the element the loop stopped at, or the last one
                     out_.append('%slet %s := (match %s with | some x_ => x_ | none => (%s).getLastD Cls.gconst)' % (ind, x, v, self.e(s.iter)))
                     self.declared[-1].add(x)
@@ -1209,8 +1369,7 @@ def translate():
                  'self.shape': 'self_shape', 'self._preserving_changes[curr_class]': '(preserving curr_class)',
                  'curr_class == new_class': '(curr_class == some new_class)'},
                 {'self.get_valid_classes()': 'get_valid_classes self_shape',
-                 'self.get_multiplicity(curr_class)': 'get_multiplicity self_shape self_n_slices curr_class',
-                 'self.get_multiplicity(new_class)': 'get_multiplicity self_shape self_n_slices new_class'},
+                 'self.get_multiplicity(_0)': 'get_multiplicity self_shape self_n_slices {0}'},
                 cls_vars=['curr_class', 'new_class'])
         tr.opt_params = {'curr_class'}
         tr.list_vars = {'result', 'values'}
@@ -1232,8 +1391,8 @@ def translate():
         missing.append('change_class: not found')
     else:
         tr = TrKeyDict({'curr_class == new_class': '(curr_class == some new_class)'},
-                       {'self._get_changed_class(key, new_class)':
-                        'get_changed_class self_shape self_n_slices values curr_class new_class none'},
+                       {'self._get_changed_class(key, _0)':
+                        'get_changed_class self_shape self_n_slices values curr_class {0} none'},
                        cls_vars=['new_class'])
         tr.allow_absent = True
         tr.opt_locals = {'curr_class'}
@@ -1248,9 +1407,8 @@ def translate():
                  '(other_values : List α) (other_class : Option Cls)')
 
     def other_calls(classes):
-        return {'other._get_changed_class(key, %s, self.slice_dim)' % c:
-                'get_changed_class other_shape other_n_slices other_values other_class %s self_slice_dim' % l
-                for c, l in classes.items()}
+        return {'other._get_changed_class(key, _0, self.slice_dim)':
+                'get_changed_class other_shape other_n_slices other_values other_class {0} self_slice_dim'}
     for nm, extra_sig in (('_insert_slice', ''), ('_insert_non_slice', ''), ('_insert_sample', ' (sample_base : String)')):
         f = find_func(dm, 'DcmMetaExtension', nm)
         lean_nm = nm.lstrip('_')
@@ -1321,7 +1479,7 @@ def translate():
         tr.stmt_map = {'if not self._ref_input is None:': None}
         body = f.body
         # `if not self._ref_input is None:` binds the reference input
-        if len(body) == 1 and isinstance(body[0], ast.If) and ast.unparse(body[0].test) == 'not self._ref_input is None' and not body[0].orelse:
+        if len(body) == 1 and isinstance(body[0], ast.If) and ast.unparse(body[0].test) in ('not self._ref_input is None', 'self._ref_input is not None') and not body[0].orelse:
             inner = body[0].body
             lines = []
             try:
@@ -1413,7 +1571,7 @@ def translate():
     if f is None:
         missing.append('copy_slice: not found')
     else:
-        tr = TrKeyDict(dict(sub_attrs), {'self.get_multiplicity(dest_class)': 'get_multiplicity self_shape self_n_slices dest_class'},
+        tr = TrKeyDict(dict(sub_attrs), {'self.get_multiplicity(_0)': 'get_multiplicity self_shape self_n_slices {0}'},
                        cls_vars=['src_class', 'dest_class'])
         tr.hoist = {'dest_class': 'Cls.gconst'}
         tr.list_vars = {'subset_vals', 'full_vals', 'vals'}
@@ -1430,8 +1588,7 @@ def translate():
         missing.append('copy_sample: not found')
     else:
         tr = TrKeyDict(dict(sub_attrs),
-                       {'self.get_multiplicity(dest_cls)': 'get_multiplicity self_shape self_n_slices dest_cls',
-                        'self.get_multiplicity(src_class)': 'get_multiplicity self_shape self_n_slices src_class',
+                       {'self.get_multiplicity(_0)': 'get_multiplicity self_shape self_n_slices {0}',
                         'other._global_slice_subset(key, sample_base, idx)':
                             'global_slice_subset other_shape (← pyGet other_n_slices) vals sample_base idx'},
                        cls_vars=['src_class', 'dest_cls', 'dest_class'])
@@ -1556,8 +1713,7 @@ def translate():
         missing.append('_get_const_period: not found')
     else:
         tr = Tr({'self.shape': 'self_shape', 'self.n_slices': 'self_n_slices'},
-                {'self.get_multiplicity(src_cls)': 'get_multiplicity self_shape self_n_slices src_cls',
-                 'self.get_multiplicity(dest_cls)': 'get_multiplicity self_shape self_n_slices dest_cls'},
+                {'self.get_multiplicity(_0)': 'get_multiplicity self_shape self_n_slices {0}'},
                 optional_exprs=['self.n_slices'])
         tr.ret_optional = True
         emit('get_const_period', '(self_shape : List Nat) (self_n_slices : Option Nat) (src_cls dest_cls : Cls) : Except PyErr (Option Nat)',
@@ -1579,15 +1735,15 @@ def translate():
     if f is None:
         missing.append('simplify: not found')
     else:
-        tr = TrKeyFx({'self.shape': 'self_shape', 'self._const_tests[curr_class]': '(constTests curr_class)',
-                      'self._repeat_tests[curr_class]': '(repeatTests curr_class)',
-                      'curr_class in self._repeat_tests': '(Gen.repeatTestsKeys.contains curr_class)',
+        tr = TrKeyFx({'self.shape': 'self_shape', 'self._const_tests[_0]': '(constTests {0})',
+                      'self._repeat_tests[_0]': '(repeatTests {0})',
+                      '_0 in self._repeat_tests': '(Gen.repeatTestsKeys.contains {0})',
                       'self._content': 'content', 'values is None': '(values == [null])',
                       'period == 1': '(period == some 1)', 'values[0]': '((values.head?).toList)'},
-                     {'self._get_const_period(curr_class, dest_cls)': 'get_const_period self_shape self_n_slices curr_class dest_cls',
-                      'is_constant(values, period)': 'is_constant values period',
-                      'is_repeating(values, dest_mult)': 'is_repeating values dest_mult',
-                      'self.get_multiplicity(dest_cls)': 'get_multiplicity self_shape self_n_slices dest_cls'},
+                     {'self._get_const_period(_0, _1)': 'get_const_period self_shape self_n_slices {0} {1}',
+                      'is_constant(_0, _1)': 'is_constant {0} {1}',
+                      'is_repeating(_0, _1)': 'is_repeating {0} {1}',
+                      'self.get_multiplicity(_0)': 'get_multiplicity self_shape self_n_slices {0}'},
                      cls_vars=['curr_class', 'dest_cls'])
         tr.opt_params = {'period'}
         tr.list_vars = {'values'}
